@@ -72,7 +72,7 @@ def run_one(lp, S, a):
     finally:
         S.uninstall(lp, saved)
     res.update({"status": status, "got": got, "labels": list(sch.labels), "P": state.get("P"), "pulled": pulled["n"],
-                "stuck": stuck, "taken": sch.taken, "branching": sch.branching,
+                "stuck": stuck, "taken": sch.taken, "branching": sch.branching, "timeouts": sch.timeouts,
                 "fields": [pool._active_threads, pool._to_process is None, pool._results is None],
                 "threads_alive": sum(isinstance(t, lp.Collector) and t.is_alive() for t in threading.enumerate())})
     # reuse the same pool object (only meaningful when the first pass left nobody blocked)
